@@ -168,6 +168,151 @@ fn reuse_stage(ctx: &mut Ctx, s: u64, r: &mut Rng) {
     }
 }
 
+/// Neighbours that share the server's socket.
+///
+/// (i) a bulk connection: some client pushes (or is sent) more than 256 KiB / more than 2048
+/// segments of bytes that never form an HTTP head, and another client then talks plain HTTP to the
+/// same server address and port.  (ii) two connections served by one socket, all segments
+/// timestamped; the server closes (FIN) or resets one of them between two segments it sends on
+/// the other.  In both, every connection's results are those of the connection analysed alone.
+fn neighbour_stage(ctx: &mut Ctx, s: u64, r: &mut Rng) {
+    use crate::pkt::{self, flags, Endpoints, Link, Script};
+    let sub = (s % 250) as u8;
+    let server = [172, 22, sub, 1 + r.below(3) as u8];
+    let sport = *r.pick(&[80u16, 8080, 8000]);
+    // ---- (i)
+    {
+        let ep_a = Endpoints::v4([10, 79, sub, 1], 1025 + r.u16() % 60000, server, sport);
+        let ep_b = Endpoints::v4([10, 79, sub, 2], 1025 + r.u16() % 60000, server, sport);
+        let mut sa = Script::new(ep_a.clone(), Link::Ethernet, r.u32(), r.u32());
+        sa.handshake();
+        let from_client = r.chance(2, 3);
+        // (the many-segments form costs ~9 s per run -- the analyzer re-reads the whole buffered
+        // direction on every segment until it gives up -- so it is the rarer one)
+        let (nseg, seglen) = if !r.chance(1, if ctx.quick() { 100 } else { 25 }) { (5 + r.usize(3), 60_000usize) } else { (2060 + r.usize(100), 40 + r.usize(20)) };
+        for i in 0..nseg {
+            let mut b = r.bytes(seglen);
+            if i == 0 {
+                b[0] = 0x80 | b[0];
+            }
+            if from_client {
+                sa.c_data(&b);
+            } else {
+                sa.s_data(&b);
+            }
+        }
+        let a = Conn { kind: Kind::Garbage, ep: ep_a, frames: sa.frames.iter().enumerate().map(|(i, f)| (scenario::T0 + i as u64, f.clone())).collect() };
+        let kb = *r.pick(&[Kind::Http1, Kind::Http1, Kind::Http2]);
+        let b = scenario::gen_conn_ep(r, s * 16 + 11, kb, scenario::T0 + 5000, Some(ep_b));
+        for which in [Which::Http, Which::Unified] {
+            let Ok(alone_b) = isolated(which, false, &b) else { continue };
+            let mut runner = Runner::new(which, 64, false);
+            let mut got_b = Vec::new();
+            let mut panic = None;
+            for (t, f) in &a.frames {
+                if let Err(p) = runner.feed(*t, f) {
+                    panic = Some(p);
+                }
+            }
+            for (t, f) in &b.frames {
+                match runner.feed(*t, f) {
+                    Ok(l) => got_b.push(l),
+                    Err(p) => panic = Some(p),
+                }
+            }
+            if let Some(p) = panic {
+                ctx.judge(false, &[], "panic while analysing interleaved connections", || json!({"panic": p, "scenario": s, "stage": "bulk neighbour"}));
+                continue;
+            }
+            ctx.judge(got_b == alone_b, &[], "a connection to a server that another client has sent bulk non-HTTP data to is analysed differently than alone", || {
+                let k = alone_b.iter().zip(got_b.iter()).position(|(x, y)| x != y).unwrap_or(0);
+                json!({"scenario": s, "analyzer": format!("{which:?}"), "bulk_connection": a.ep.key(), "bulk_segments": nseg, "bulk_segment_octets": seglen, "bulk_sent_by_client": from_client,
+                       "connection": b.ep.key(), "kind": format!("{kb:?}"), "first_differing_frame": k, "alone": alone_b.get(k), "after_bulk": got_b.get(k)})
+            });
+            ctx.bucket(&format!("neighbour/bulk/{which:?}/{kb:?}/{}/{}", if from_client { "client-sends" } else { "server-sends" }, if seglen > 1000 { "jumbo" } else { "many-segments" }));
+        }
+    }
+    // ---- (ii)
+    {
+        let ts = |v: u32, e: u32| {
+            let mut o = pkt::opt_nop();
+            o.extend(pkt::opt_nop());
+            o.extend(pkt::opt_ts(v, e));
+            o
+        };
+        let hz = *r.pick(&[100u64, 250, 1000]);
+        let mut conns: Vec<Conn> = Vec::new();
+        let closing = *r.pick(&[flags::FIN | flags::ACK, flags::RST, flags::RST | flags::ACK]);
+        // the second variant shares the CLIENT socket instead (one source port towards two servers)
+        let share_client = r.chance(1, 4);
+        for c in 0..2u64 {
+            let ep = if share_client {
+                Endpoints::v4([10, 79, sub, 9], 40_000 + (s % 20_000) as u16, [172, 22, sub, 10 + c as u8], sport)
+            } else {
+                Endpoints::v4([10, 79, sub, 3 + c as u8], 1025 + r.u16() % 60000, server, sport)
+            };
+            let (cb, sb) = (r.u32(), r.u32());
+            let mut sc = Script::new(ep.clone(), Link::Ethernet, r.u32(), r.u32());
+            let t0 = scenario::T0 + c * 20;
+            let mut frames: Vec<(u64, Vec<u8>)> = Vec::new();
+            let mut o = pkt::opt_mss(1460);
+            o.extend(ts(cb, 0));
+            sc.syn(o);
+            let mut o = pkt::opt_mss(1460);
+            o.extend(ts(sb, cb));
+            sc.syn_ack(o);
+            frames.push((t0, sc.frames[0].clone()));
+            frames.push((t0 + 5, sc.frames[1].clone()));
+            let tick = |base: u32, ms: u64| base.wrapping_add((hz * ms / 1000) as u32);
+            // the shared endpoint is the server (or, in the other variant, the client)
+            let from_client = share_client;
+            if c == 0 {
+                // connection 1 is closed by the shared endpoint at +400 ms
+                let f = sc.seg(from_client, if from_client { sc.c_next } else { sc.s_next }, 1, closing, ts(tick(if from_client { cb } else { sb }, 400), 1), &[]);
+                frames.push((t0 + 400, f));
+            } else {
+                for ms in [600u64, 1200] {
+                    let f = sc.seg(from_client, if from_client { sc.c_next } else { sc.s_next }, 1, flags::ACK, ts(tick(if from_client { cb } else { sb }, ms), 1), &[]);
+                    frames.push((t0 + ms, f));
+                }
+            }
+            conns.push(Conn { kind: Kind::TcpHandshake, ep, frames });
+        }
+        let mut merged: Vec<(u64, usize, usize)> = Vec::new();
+        for (ci, c) in conns.iter().enumerate() {
+            for (fi, f) in c.frames.iter().enumerate() {
+                merged.push((f.0, ci, fi));
+            }
+        }
+        merged.sort();
+        for which in [Which::Tcp, Which::Unified] {
+            let (Ok(i0), Ok(i1)) = (isolated(which, false, &conns[0]), isolated(which, false, &conns[1])) else { continue };
+            let iso = [i0, i1];
+            let mut runner = Runner::new(which, 64, false);
+            let mut got: Vec<Vec<Vec<String>>> = vec![Vec::new(), Vec::new()];
+            let mut panic = None;
+            for (t, ci, fi) in &merged {
+                match runner.feed(*t, &conns[*ci].frames[*fi].1) {
+                    Ok(l) => got[*ci].push(l),
+                    Err(p) => panic = Some(p),
+                }
+            }
+            if let Some(p) = panic {
+                ctx.judge(false, &[], "panic while analysing interleaved connections", || json!({"panic": p, "scenario": s, "stage": "shared socket"}));
+                continue;
+            }
+            let uptimes = iso[1].iter().flatten().filter(|l| l.starts_with("uptime")).count();
+            for ci in 0..2 {
+                ctx.judge(got[ci] == iso[ci], &[], "a connection's results differ between isolated and interleaved analysis", || {
+                    json!({"scenario": s, "stage": "two timestamped connections on one socket, one of them closed", "analyzer": format!("{which:?}"), "connection": ci, "endpoints": conns[ci].ep.key(),
+                           "shared_endpoint": if share_client { "client" } else { "server" }, "closing_flags": closing, "clock_hz": hz, "isolated": iso[ci], "interleaved": got[ci]})
+                });
+            }
+            ctx.bucket(&format!("neighbour/shared-{}-socket/{which:?}/closing{closing:#x}/uptime-lines{}", if share_client { "client" } else { "server" }, uptimes.min(3)));
+        }
+    }
+}
+
 pub fn run(ctx: &mut Ctx) {
     crate::pool::install_hooks();
     let n = ctx.scale(24_000, 800_000, 2);
@@ -288,6 +433,9 @@ pub fn run(ctx: &mut Ctx) {
         if s % 2 == 0 || !ctx.quick() {
             reuse_stage(ctx, s, &mut r);
         }
+        if !ctx.miri() && (s / 16) % (if ctx.quick() { 16 } else { 8 }) == 5 {
+            neighbour_stage(ctx, s, &mut r);
+        }
         // worker pools: a quarter of the scenarios (quick) / half of them (thorough), spread evenly over the shards;
         // not under the interpreter, and not once the shard has stored its violations (a pool that
         // loses frames costs 2 s of idle detection per run)
@@ -312,6 +460,7 @@ pub fn spec() -> PropSpec {
         shards: super::shards_16,
         rule: "seeded scenarios of 2..8 scripted connections (TCP handshakes with timestamps, multi-segment TLS ClientHellos, HTTP/1.x and HTTP/2 exchanges incl. hostile HPACK blocks with dynamic-table inserts/references/size updates, garbage and truncated connections), each analysed alone and in 3..5 order-preserving interleavings (sequential, round-robin, riffle, hostile-first, bursts) on the TCP, HTTP, TLS and unified analyzers with the virtual clock giving every frame the same arrival time in both runs; per-frame canonical results of each connection are compared; a bucket is a distinct (analyzer, interleaving, connection kind, reports/silent) or (analyzer, kind, set of neighbouring kinds)",
         assumptions: &[
+            "neighbour stage (one scenario block in 16, quick; in 8, thorough): a bulk connection beyond the give-up limits followed by another client's exchange with the same server socket (HTTP, unified); two timestamped connections on one socket, one closed by FIN/RST between two segments of the other (TCP, unified)",
             "connection capacity is 64, or (half of the scenarios) exactly the number of connections of the scenario; the caller-supplied uptime tracker of the TCP analyzer's per-packet entry always holds 64 entries; scenarios are far shorter than the 20/30/60 s TTLs, slower ones are discarded as inconclusive",
             "parsing_time_ns and HashMap iteration order are excluded from the canonical form",
             "connections of one scenario have pairwise distinct 4-tuples",
